@@ -4,5 +4,5 @@ SPEC="$1"; shift
 D=$(mktemp -d /tmp/mut1.XXXXXX)
 /venv/bin/python /verif/tools/mutate.py apply /repo/spatialmath "$D/spatialmath" "$SPEC" 2>/dev/null
 [ $# = 0 ] && set -- C01 C02 C03 C04 C05 C06 C07 C08 C09 C10 C11 C12 C13 C14 C15 C16 C17 C18 C19 C20
-for p in "$@"; do VERIF_EVIDENCE_DIR="$D/ev" /verif/check $p --repo "$D" 2>&1 | grep "^UNRECOG\|^ANALYSIS\|\[R" | cut -c1-260; done
+for p in "$@"; do VERIF_EVIDENCE_DIR="$D/ev" /verif/check $p --repo "$D" 2>&1 | grep "^UNRECOG\|^ANALYSIS\|\[R" | grep -v "^KNOWN-FINDING" | cut -c1-260; done
 rm -rf "$D"
